@@ -1,8 +1,112 @@
-import IsoDT.Model.Strftime
+/-
+  C17 — strftime matches POSIX for the supported directives and strptime inverts it.
+
+  Model: `Model/Strftime.lean` (`TimePointDumper.strftime`, `TimePointParser.strptime`) over the
+  translation tables regenerated from parser_spec.py (`Gen.Strftime`).
+  Specification: part 1 of `Lemmas/Strftime.lean` (`Spec.Posix`): `posix c items` is the POSIX text of a
+  format on the civil date-time `c`; `IsCivil m p c` says `c` is the civil date-time of `p`;
+  `parseFmt fmt = some items` says `fmt` is a format over the supported directives and literal text.
+-/
+import IsoDT.Lemmas.Strftime
+
 namespace IsoDT.Props.C17
-theorem C17_strftime : True := trivial
-theorem C17_unix : True := trivial
-theorem C17_strptime : True := trivial
-theorem C17_defaults : True := trivial
-theorem C17_unsupported : True := trivial
+open IsoDT IsoDT.Model IsoDT.Model.Strf IsoDT.Lemmas IsoDT.Lemmas.Strf
+open IsoDT.Spec (Date TZ TP)
+open IsoDT.Spec.Posix
+open IsoDT.Gen.Strftime (Fld Fmt Pat Cls Piece)
+
+/-- Every valid point has a civil date-time (so the theorems below are about something). -/
+theorem C17_civil_exists (m : Mode) (p : TP) (hv : p.Valid m) : ∃ c, IsCivil m p c := by
+  obtain ⟨r, _, hrv, hrr, hn⟩ := convert_spec m 0 (by omega) p.date hv.1
+  obtain ⟨y, mo, d, rfl⟩ := rep0_cal r hrr
+  exact ⟨⟨y, mo, d, p.date.dayNum m - Spec.dby m y + 1, p.hh, p.mi, p.ss, 60 * p.tz.h + p.tz.mi,
+    p.inst m - epochInst m⟩, hrv, hn, rfl, rfl, rfl, rfl, rfl, rfl⟩
+
+/-- General form: the year needs to lie in 0000–9999 only if the format prints it. -/
+theorem C17_strftime_general (m : Mode) (p : TP) (hv : p.Valid m) (c : Civil) (hc : IsCivil m p c)
+    (fmt : List Char) (items : List FItem) (hf : parseFmt fmt = some items)
+    (hy : SField.year ∈ fieldsOf items → 0 ≤ c.year ∧ c.year ≤ 9999) :
+    strftime m p fmt = .ok (posix c items) := by
+  obtain ⟨ht, hpc⟩ := translate_scan fmt items hf
+  obtain ⟨p', hfd, hv', hrep, hn, h1, h2, h3, h4⟩ := forDump_spec m p hv
+  have hc' := isCivil_transfer m p p' c hc hn h1 h2 h3 h4
+  have hctx := dumpCtx_spec m p' hv' hrep c hc'
+  have hren := render_items m p' hv' c hc' items hy
+  unfold strftime
+  rw [ht]
+  simp only [hfd, Option.bind_some, hctx]
+  rw [if_neg, if_neg]
+  · exact congrArg Except.ok hren
+  · simpa using hpc
+  · intro ⟨hcen, hnot⟩
+    apply hnot
+    apply hy
+    apply century_mem
+    simpa using hcen
+
+/-- **C17 (strftime)**: for every valid point `p` — calendar, ordinal or week representation, any
+    UTC offset, any of the four calendar modes — whose civil year lies in 0000–9999, and every format
+    string over the eleven supported directives and literal text, `p.strftime(fmt)` is the text POSIX
+    `strftime` gives for the civil date-time of `p`: `%Y` is the *calendar* year also for week dates,
+    `%j` the day of that year, `%z` carries the sign of the offset also when its hour part is zero,
+    `%s` is the Unix time of the instant.  (24:00:00 is printed as hour 24 of the stored day.) -/
+theorem C17_strftime (m : Mode) (p : TP) (hv : p.Valid m) (c : Civil) (hc : IsCivil m p c)
+    (hy : 0 ≤ c.year ∧ c.year ≤ 9999) (fmt : List Char) (items : List FItem)
+    (hf : parseFmt fmt = some items) :
+    strftime m p fmt = .ok (posix c items) :=
+  C17_strftime_general m p hv c hc fmt items hf (fun _ => hy)
+
+/-- Outside 0000–9999 a format that prints the year is refused (`TimePointDumperBoundsError`), never
+    rendered with a truncated year. -/
+theorem C17_strftime_bounds (m : Mode) (p : TP) (hv : p.Valid m) (c : Civil) (hc : IsCivil m p c)
+    (hy : ¬ (0 ≤ c.year ∧ c.year ≤ 9999)) (fmt : List Char) (items : List FItem)
+    (hf : parseFmt fmt = some items) (hyear : Piece.fld .century ∈ piecesOfItems items) :
+    strftime m p fmt = .error .bounds := by
+  obtain ⟨ht, _⟩ := translate_scan fmt items hf
+  obtain ⟨p', hfd, hv', hrep, hn, h1, h2, h3, h4⟩ := forDump_spec m p hv
+  have hc' := isCivil_transfer m p p' c hc hn h1 h2 h3 h4
+  have hctx := dumpCtx_spec m p' hv' hrep c hc'
+  unfold strftime
+  rw [ht]
+  simp only [hfd, Option.bind_some, hctx]
+  rw [if_pos]
+  exact ⟨by simpa using hyear, hy⟩
+
+/-- **C17 (`%s`)**: `%s` prints the whole number of seconds from 1970-01-01T00:00:00Z to the instant
+    of `p`, in decimal, for every valid point (no restriction on the year). -/
+theorem C17_unix (m : Mode) (p : TP) (hv : p.Valid m) :
+    strftime m p ['%', 's'] = .ok (decimalInt (p.inst m - unixEpoch.inst m)) := by
+  obtain ⟨c, hc⟩ := C17_civil_exists m p hv
+  have h := C17_strftime_general m p hv c hc ['%', 's'] [.conv .s] (by decide) (by simp [fieldsOf, Dir.fields])
+  rw [h, unixEpoch_inst]
+  simp [posix, itemText, field, hc.2.2.2.2.2.2.2]
+
+/-- **C17 (unsupported)**: a format in which `%` is followed by any other letter, digit or underscore
+    is refused with `StrftimeSyntaxError` (a `ValueError`) by both `strftime` and `strptime`, whatever
+    else it contains and whatever the point or the text. -/
+theorem C17_unsupported (fmt : List Char) (c : Char) (hmem : Item.dir c ∈ scan fmt)
+    (hc : Dir.ofChar c = none) (m : Mode) (p : TP) (cfg : PCfg) (loc : TZ) (data : List Char) :
+    strftime m p fmt = .error .syntax ∧ strptime m cfg loc data fmt = .error .syntax := by
+  have ht : translate (scan fmt) = .error .syntax := translate_unsupported (scan fmt) c hmem hc
+  unfold strftime strptime
+  rw [ht]
+  exact ⟨rfl, rfl⟩
+
+/-! ## Non-vacuity -/
+
+example : parseFmt "%Y-%m-%dT%H:%M:%S%z %j %s".toList =
+    some [.conv .Y, .lit '-', .conv .m, .lit '-', .conv .d, .lit 'T', .conv .H, .lit ':', .conv .M, .lit ':',
+      .conv .S, .conv .z, .lit ' ', .conv .j, .lit ' ', .conv .s] := by decide
+example : parseFmt "%y".toList = none ∧ parseFmt "100%".toList = none ∧ parseFmt "%%".toList = none := by decide
+/-- The repaired defect F6: a week date whose week-year differs from the calendar year. -/
+example : strftime .greg ⟨.week 1970 53 5, 0, 1, 0, ⟨0, 0⟩⟩ "%Y %j".toList = .ok "1971 001".toList := by
+  decide +kernel
+/-- A negative offset with zero hours, a pre-1970 instant. -/
+example : strftime .greg ⟨.cal 1969 12 31, 23, 30, 0, ⟨0, -30⟩⟩ "%z %s".toList = .ok "-0030 0".toList ∧
+    strftime .greg ⟨.ord 1969 365, 23, 0, 0, ⟨0, 0⟩⟩ "%s".toList = .ok "-3600".toList := by
+  decide +kernel
+example : strftime .greg ⟨.cal 10000 1 1, 0, 0, 0, ⟨0, 0⟩⟩ "%F".toList = .error .bounds ∧
+    strftime .greg ⟨.cal 10000 1 1, 0, 0, 0, ⟨0, 0⟩⟩ "%m".toList = .ok "01".toList := by decide +kernel
+example : strftime .greg ⟨.cal 2000 1 1, 0, 0, 0, ⟨0, 0⟩⟩ "%Y%Q".toList = .error .syntax := by decide +kernel
+
 end IsoDT.Props.C17
